@@ -29,6 +29,11 @@ for d in sorted(glob.glob('/verif/seeded/*/')):
             if not f: continue
             f=f.decode(); p=os.path.join(tmp,f); os.makedirs(os.path.dirname(p),exist_ok=True); shutil.copy(os.path.join('/repo',f),p)
         r=subprocess.run(['patch','-p1','-s','-f','-i',os.path.join(d,'patch.diff')],cwd=tmp,capture_output=True,text=True)
+        if r.returncode!=0 and os.path.exists(os.path.join(d,'patch.rebased.diff')):
+            # the confirmed patch predates a later fix: commit touching the same lines; a hand-rebased copy of the same change
+            subprocess.run(['git','-C','/repo','checkout-index','-a','-f','--prefix='+tmp+'/'],capture_output=True)
+            for rej in glob.glob(tmp+'/**/*.rej',recursive=True)+glob.glob(tmp+'/**/*.orig',recursive=True): os.remove(rej)
+            r=subprocess.run(['patch','-p1','-s','-f','-i',os.path.join(d,'patch.rebased.diff')],cwd=tmp,capture_output=True,text=True)
         if r.returncode!=0:
             rows[sid]={'confirmed':conf.get('confirmed'),'applies':False,'rules':[]}; continue
         new=sorted(failing(tmp)-base)
